@@ -241,7 +241,7 @@ Print Assumptions C11_full_domain_example.
 (* no IPv6: of an IPv6 UDP socket with ports and an IPv6 socket with both ports 0 only the latter is reported *)
 Theorem C11_ipv6_unsupported_example :
   let o := {| o_ntop6 := false; o_supported := false |} in
-  let st := Build_kstate [ex_tcp] None [] (Some [ex_udp6; ex_v6_listen0]) [] (ex_procs false) in
+  let st := Build_kstate [ex_tcp] None [] (Some [ex_udp6; ex_v6_listen0]) [] (ex_procs false) (fun _ => None) in
   wf_state st = true /\ files_text_safe true st = true
   /\ exists adds, net_connections_adds current true o (k_files true st) (to_procs (k_procs st)) (bs "inet") = Val adds
                   /\ map r_family adds = [2; 10] /\ map r_laddr adds = [AInet [127; 0; 0; 1] 22; ANone]
@@ -256,6 +256,40 @@ Theorem C11_unix_items_example :
   /\ length (socks_of items) = 1%nat.
 Proof. exact unix_items_example. Qed.
 Print Assumptions C11_unix_items_example.
+
+(* ---- degenerate table files (procfs emulations / sandboxes): a table file that exists but is completely empty
+   (0 bytes, no header), holds the header without its newline, or a lone newline is part of the state ([k_deg], only
+   for tables without sockets) and so of the domain of C11_system_wide / C11_per_process: it contributes no row, raises
+   nothing, the other tables of the kind are still returned, and it is read like any other.  Concretely: *)
+Theorem C11_empty_tables :
+  let st := Build_kstate [ex_tcp] (Some []) [] (Some []) [] (ex_procs false)
+              (fun n => if beqb n (bs "tcp6") then Some DEmpty else if beqb n (bs "udp6") then Some DHeaderNoNl
+                        else if beqb n (bs "unix") then Some DNewline else None) in
+  wf_state st = true /\ files_text_safe true st = true
+  /\ k_files true st (bs "tcp6") = Some [] /\ k_files true st (bs "udp6") = Some hdr_udp6
+  /\ k_files true st (bs "unix") = Some [10]
+  /\ (exists adds, net_connections_adds current true ipv6_ok (k_files true st) (to_procs (k_procs st)) (bs "all") = Val adds
+                   /\ length adds = 1%nat /\ length (spec_sys (bs "all") st) = 1%nat)
+  /\ net_log current true ipv6_ok (k_files true st) (to_procs (k_procs st)) (bs "all")
+     = [bs "tcp"; bs "tcp6"; bs "udp"; bs "udp6"; bs "unix"]
+  /\ net_connections current true ipv6_ok (k_files true st) (to_procs (k_procs st)) (bs "inet6") = Val [].
+Proof. exact empty_tables_example. Qed.
+Print Assumptions C11_empty_tables.
+
+Theorem C11_all_tables_degenerate :
+  forall d, let st := Build_kstate [] (Some []) [] (Some []) [] (ex_procs false) (fun _ => Some d) in
+  wf_state st = true /\ files_text_safe true st = true
+  /\ net_connections current true ipv6_ok (k_files true st) (to_procs (k_procs st)) (bs "all") = Val [].
+Proof. exact all_tables_degenerate. Qed.
+Print Assumptions C11_all_tables_degenerate.
+
+(* the file-level facts behind it, for every header and every host / variant *)
+Theorem C11_degenerate_file_no_rows : forall le o v d hdr is6 fam ty lk filt,
+  text_safe hdr = true -> contains 10 hdr = false ->
+  process_inet le o (Some (k_deg_file d hdr)) is6 fam ty lk filt = Val []
+  /\ process_unix v (Some (k_deg_file d hdr_unix)) fam lk filt = Val [].
+Proof. intros. split; [now apply process_inet_degenerate|apply process_unix_degenerate]. Qed.
+Print Assumptions C11_degenerate_file_no_rows.
 
 (* ---- UNIX names: every byte except LF and NUL.  A state whose shared UNIX socket is bound to
    " \r\x1c<NBSP><LINE SEPARATOR>\t\xff x \x1f" is in the domain of the theorems above, and the name comes back whole;
